@@ -89,6 +89,14 @@ Necessary(pat, form) == \A v \in RequiredBefore(form) \cap pat.data :
    LET p2 == [pat EXCEPT !.data = @ \ {v}] IN
    Succeeds(pat, form) => (Succeeds(p2, form) <=> Layer(p2, v) # "MISSING") /\ (Succeeds(p2, form) => Sources(p2, form)[v] = Layer(p2, v) /\ Layer(p2, v) # "data")
 
+\* Captured context (utils/context.py capture_context, sugar.model_matrix(context=k)): the context is the frame k levels above the
+\* caller - its local variables first, then its globals.  stack[i] says whether frame i-1 (0 = the caller) binds the name locally.
+CaptureLayer(stack, k, inglobals, indata) ==
+  IF indata THEN "data" ELSE IF stack[k + 1] THEN "locals" ELSE IF inglobals THEN "globals" ELSE "MISSING"
+\* values: data 1, the local of frame i is 10 * (i + 1), the global 7
+CaptureValue(stack, k, inglobals, indata) ==
+  LET l == CaptureLayer(stack, k, inglobals, indata) IN CASE l = "data" -> 1 [] l = "locals" -> 10 * (k + 1) [] l = "globals" -> 7 [] OTHER -> -1
+
 \* `.` : the data columns not used on the left-hand side, in data order
 DotExpand(cols, lhs) == SelectSeq(cols, LAMBDA c : c \notin lhs)
 =============================================================================
